@@ -777,14 +777,15 @@ pub fn finish(
                 "seed": ctx.seed,
             });
             let text = serde_json::to_string_pretty(&body).unwrap();
+            let replay_dir = std::env::var("VERIF_REPLAY_DIR").unwrap_or_else(|_| format!("{}/replays", verif_dir));
             let path = format!(
-                "{}/replays/{}-{}-{}.json",
-                verif_dir,
+                "{}/{}-{}-{}.json",
+                replay_dir,
                 ctx.prop,
                 sub.name.replace('/', "_"),
                 short_hash(&format!("{}{}", full_sig, f.case))
             );
-            let _ = std::fs::create_dir_all(format!("{}/replays", verif_dir));
+            let _ = std::fs::create_dir_all(&replay_dir);
             if let Err(e) = std::fs::write(&path, text) {
                 eprintln!("cannot write replay file {}: {}", path, e);
             }
@@ -875,8 +876,9 @@ pub fn finish(
             "violations": violations,
             "known_findings_hit": known_hits.keys().collect::<Vec<_>>(),
         });
-        let path = format!("{}/evidence/{}.json", verif_dir, ctx.prop);
-        let _ = std::fs::create_dir_all(format!("{}/evidence", verif_dir));
+        let ev_dir = std::env::var("VERIF_EVIDENCE_DIR").unwrap_or_else(|_| format!("{}/evidence", verif_dir));
+        let path = format!("{}/{}.json", ev_dir, ctx.prop);
+        let _ = std::fs::create_dir_all(&ev_dir);
         if let Err(e) = std::fs::write(&path, serde_json::to_string_pretty(&ev).unwrap()) {
             eprintln!("cannot write evidence {}: {}", path, e);
             return Finish { exit_code: 2 };
